@@ -69,3 +69,19 @@ Theorem C13_source_keyauth_handler : forall validator ls,
   ret = [VZ (match o with Ran => 200 | Rejected c => Z.of_nat c end)%Z].
 Proof. exact src_key_auth_handler_spec. Qed.
 Print Assumptions C13_source_keyauth_handler.
+
+(* the request handler of BasicAuthWithConfig (Gen/Src_basicauth.v: an index loop over the decoded credentials, slicing and
+   indexing as pure predicates): for EVERY Authorization value, base64 decoder and validator it behaves like the model's
+   [basic_auth] - the scheme test on the first five bytes of a header longer than six, 400 when the rest is not base64, the
+   split at the FIRST colon, one validator call with exactly (user, password), the handler only on (true, nil), the
+   validator's own error handed on (9), 401 otherwise *)
+From Echo Require Import Gen.Src_basicauth Mw.BasicAuthSrc.
+
+Theorem C13_source_basicauth_handler : forall decode validator auth,
+  let '(st', ret) := GoLoop.run (bsym auth) (bpred decode validator) src_basic_auth_handler_results src_basic_auth_handler BasicAuthSrc.start in
+  let '(o, calls) := basic_auth decode validator auth in
+  vpairs_of (events st') = calls /\
+  BasicAuthSrc.called_next st' = (match o with Ran => true | Rejected _ => false end) /\
+  ret = [VZ (match o with Ran => 200 | Rejected 0 => 9 | Rejected c => Z.of_nat c end)%Z].
+Proof. exact src_basic_auth_handler_spec. Qed.
+Print Assumptions C13_source_basicauth_handler.
